@@ -15,6 +15,9 @@
 EXTENDS Integers, FiniteSets, Sequences, TLC
 
 CONSTANTS Actors, Victims,      \* Victims \subseteq Actors may be cancelled at any time
+          Ignore,               \* Ignore \subseteq Victims lock with cancel *disabled* (the re-lock inside
+                                \* Condvar::wait): the `b_ignore` branches of lock()
+          FixIgnore,            \* FALSE = pinned tree; TRUE = repaired b_ignore path (see below)
           Prog,                 \* [Actors -> Seq({"lock","try"})]
           ForwardOnCancel,      \* TRUE = code as written; FALSE = mutant
           UnlockGt              \* the constant in `fetch_sub(1) > UnlockGt` (1 as written)
@@ -22,14 +25,15 @@ CONSTANTS Actors, Victims,      \* Victims \subseteq Actors may be cancelled at 
 VARIABLES cnt, toWake,                      \* the mutex
           token, unparked, release,         \* per blocker (= <<actor, op index>>)
           pc, ip, w, retTo, cancelled, parked, res,
-          data, seen                        \* ghost: protected datum, what the holder read
+          data, seen,                       \* ghost: protected datum, what the holder read
+          gen                               \* a fresh SyncBlocker per attempt of a lock() call
 
-vars == <<cnt, toWake, token, unparked, release, pc, ip, w, retTo, cancelled, parked, res, data, seen>>
+vars == <<cnt, toWake, token, unparked, release, pc, ip, w, retTo, cancelled, parked, res, data, seen, gen>>
 
 MaxOps == 3
-Blockers == Actors \X (1..MaxOps)
-Me(a) == <<a, ip[a]>>
-NoB == <<"none", 0>>
+Blockers == Actors \X (1..MaxOps) \X (1..2)
+Me(a) == <<a, ip[a], gen[a]>>
+NoB == <<"none", 0, 0>>
 Op(a) == Prog[a][ip[a]]
 First(a) == IF Len(Prog[a]) = 0 THEN "done" ELSE "mutex.try.cas"
 
@@ -42,12 +46,12 @@ Init ==
   /\ w = [a \in Actors |-> NoB] /\ retTo = [a \in Actors |-> "none"]
   /\ cancelled = [a \in Actors |-> FALSE]
   /\ parked = [a \in Actors |-> FALSE] /\ res = [a \in Actors |-> "none"]
-  /\ data = 0 /\ seen = [a \in Actors |-> 0]
+  /\ data = 0 /\ seen = [a \in Actors |-> 0] /\ gen = [a \in Actors |-> 1]
 
 Goto(a, l) == pc' = [pc EXCEPT ![a] = l]
 UNCH_B == UNCHANGED <<token, unparked, release>>
 UNCH_M == UNCHANGED <<cnt, toWake>>
-UNCH_G == UNCHANGED <<data, seen>>
+UNCH_G == UNCHANGED <<data, seen, gen>>
 UNCH_L == UNCHANGED <<ip, w, retTo, cancelled, parked, res>>
 
 \* try_lock(): compare_exchange(0, 1); lock() starts with the same call
@@ -57,7 +61,7 @@ TryCas(a) ==
                      /\ seen' = [seen EXCEPT ![a] = data] /\ UNCHANGED data
                 ELSE /\ UNCHANGED <<cnt, data, seen>>
                      /\ Goto(a, IF Op(a) = "lock" THEN "mutex.lock.push" ELSE "next")
-  /\ UNCHANGED toWake /\ UNCH_B /\ UNCH_L
+  /\ UNCHANGED <<toWake, gen>> /\ UNCH_B /\ UNCH_L
 
 LockPush(a) ==
   /\ pc[a] = "mutex.lock.push"
@@ -104,11 +108,17 @@ TakeRelease(a) ==
   /\ LET b == IF retTo[a] = "c_recheck" THEN Me(a) ELSE w[a] IN
        /\ release' = [release EXCEPT ![b] = FALSE]
        /\ IF retTo[a] = "c_recheck"
-            THEN IF release[b] THEN Goto(a, "mutex.unlock.dec") /\ retTo' = [retTo EXCEPT ![a] = "dead"]
-                               ELSE Goto(a, "dead") /\ UNCHANGED retTo
+            THEN IF a \in Ignore
+                   THEN IF release[b] THEN Goto(a, "mutex.cs") /\ UNCHANGED retTo       \* got the flag back: the lock is ours
+                        ELSE IF FixIgnore THEN Goto(a, "retry") /\ UNCHANGED retTo      \* the waker unlocks on our behalf
+                                          ELSE Goto(a, "sb.park") /\ retTo' = [retTo EXCEPT ![a] = "none"]
+                   ELSE IF release[b] THEN Goto(a, "mutex.unlock.dec") /\ retTo' = [retTo EXCEPT ![a] = "dead"]
+                                      ELSE Goto(a, "dead") /\ UNCHANGED retTo
             ELSE /\ UNCHANGED retTo
                  /\ IF release[b] THEN Goto(a, "mutex.unlock.dec") ELSE Goto(a, retTo[a])
-  /\ UNCHANGED <<token, unparked, ip, w, cancelled, parked, res>> /\ UNCH_M /\ UNCH_G
+  /\ seen' = IF retTo[a] = "c_recheck" /\ a \in Ignore /\ release[IF retTo[a] = "c_recheck" THEN Me(a) ELSE w[a]]
+             THEN [seen EXCEPT ![a] = data] ELSE seen
+  /\ UNCHANGED <<token, unparked, ip, w, cancelled, parked, res, data, gen>> /\ UNCH_M
 
 UnlockDec(a) ==
   /\ pc[a] = "mutex.unlock.dec"
@@ -122,7 +132,7 @@ ParkEnter(a) ==
   /\ IF token[Me(a)]
        THEN /\ token' = [token EXCEPT ![Me(a)] = FALSE] /\ res' = [res EXCEPT ![a] = "Ok"]
             /\ Goto(a, "sb.park.ret") /\ UNCHANGED parked
-       ELSE IF cancelled[a]
+       ELSE IF cancelled[a] /\ a \notin Ignore      \* (with cancel disabled the yield does not short-circuit)
          THEN /\ res' = [res EXCEPT ![a] = "Canceled"] /\ Goto(a, "sb.park.ret") /\ UNCHANGED <<token, parked>>
          ELSE /\ parked' = [parked EXCEPT ![a] = TRUE] /\ Goto(a, "parked") /\ UNCHANGED <<token, res>>
   /\ UNCHANGED <<unparked, release, ip, w, retTo, cancelled>> /\ UNCH_M /\ UNCH_G
@@ -137,19 +147,29 @@ ParkReturn(a) ==
             /\ Goto(a, IF ForwardOnCancel THEN "sb.is_unparked" ELSE "dead")
             /\ UNCHANGED seen
   /\ res' = [res EXCEPT ![a] = "none"]
-  /\ UNCHANGED <<unparked, release, ip, w, retTo, cancelled, parked, cnt, toWake, data>>
+  /\ UNCHANGED <<unparked, release, ip, w, retTo, cancelled, parked, cnt, toWake, data, gen>>
 
-\* is_unparked() is read twice on the cancel path: first check, then the re-check after set_release
+\* is_unparked() is read twice on the cancel path: first check, then the re-check after set_release.
+\* A locker with cancel disabled (Ignore) keeps the lock if it was handed over (`break`), otherwise
+\* it goes back to park() (`continue`) - as written with the release flag still set, and even when
+\* the waker has already taken that flag and is unlocking on its behalf (defect F16); the repaired
+\* code gives up the queue entry exactly like a cancelled waiter and contends again from scratch.
 IsUnparked(a) ==
   /\ pc[a] = "sb.is_unparked"
   /\ IF retTo[a] # "c_second"
        THEN IF unparked[Me(a)]
-              THEN Goto(a, "mutex.unlock.dec") /\ retTo' = [retTo EXCEPT ![a] = "dead"]
-              ELSE Goto(a, "sb.set_release") /\ UNCHANGED retTo
+              THEN IF a \in Ignore
+                     THEN Goto(a, "mutex.cs") /\ seen' = [seen EXCEPT ![a] = data] /\ UNCHANGED retTo
+                     ELSE Goto(a, "mutex.unlock.dec") /\ retTo' = [retTo EXCEPT ![a] = "dead"] /\ UNCHANGED seen
+              ELSE Goto(a, "sb.set_release") /\ UNCHANGED <<retTo, seen>>
        ELSE IF unparked[Me(a)]
-              THEN Goto(a, "sb.take_release") /\ retTo' = [retTo EXCEPT ![a] = "c_recheck"]
-              ELSE Goto(a, "dead") /\ UNCHANGED retTo
-  /\ UNCHANGED <<ip, w, cancelled, parked, res>> /\ UNCH_B /\ UNCH_M /\ UNCH_G
+              THEN Goto(a, "sb.take_release") /\ retTo' = [retTo EXCEPT ![a] = "c_recheck"] /\ UNCHANGED seen
+              ELSE /\ UNCHANGED seen
+                   /\ IF a \in Ignore
+                        THEN IF FixIgnore THEN Goto(a, "retry") /\ UNCHANGED retTo
+                                          ELSE Goto(a, "sb.park") /\ retTo' = [retTo EXCEPT ![a] = "none"]
+                        ELSE Goto(a, "dead") /\ UNCHANGED retTo
+  /\ UNCHANGED <<ip, w, cancelled, parked, res, data, gen>> /\ UNCH_B /\ UNCH_M
 
 SetRelease(a) ==
   /\ pc[a] = "sb.set_release"
@@ -160,7 +180,7 @@ SetRelease(a) ==
 \* inside the critical section: the holder writes the protected datum and leaves
 LeaveCS(a) ==
   /\ pc[a] = "mutex.cs"
-  /\ data' = data + 1 /\ UNCHANGED seen
+  /\ data' = data + 1 /\ UNCHANGED <<seen, gen>>
   /\ Goto(a, "mutex.unlock.dec") /\ retTo' = [retTo EXCEPT ![a] = "next"]
   /\ UNCHANGED <<ip, w, cancelled, parked, res>> /\ UNCH_B /\ UNCH_M
 
@@ -168,7 +188,16 @@ NextOp(a) ==
   /\ pc[a] = "next"
   /\ IF ip[a] < Len(Prog[a]) THEN ip' = [ip EXCEPT ![a] = ip[a] + 1] /\ Goto(a, "mutex.try.cas")
                              ELSE UNCHANGED ip /\ Goto(a, "done")
-  /\ UNCHANGED <<w, retTo, cancelled, parked, res>> /\ UNCH_B /\ UNCH_M /\ UNCH_G
+  /\ gen' = [gen EXCEPT ![a] = 1]
+  /\ UNCHANGED <<w, retTo, cancelled, parked, res, data, seen>> /\ UNCH_B /\ UNCH_M
+
+\* repaired b_ignore path only: the queue entry has been given up (its release flag stays set, whoever
+\* pops it unlocks on its behalf); contend again from the start of lock() with a fresh blocker
+Retry(a) ==
+  /\ pc[a] = "retry"
+  /\ gen' = [gen EXCEPT ![a] = 2] /\ Goto(a, "mutex.try.cas")
+  /\ retTo' = [retTo EXCEPT ![a] = "none"]
+  /\ UNCHANGED <<ip, w, cancelled, parked, res, data, seen>> /\ UNCH_B /\ UNCH_M
 
 \* environment: cancel() of a victim coroutine; a parked victim without token is woken with Canceled
 Cancel(a) ==
@@ -186,11 +215,11 @@ Step(a) ==
   \/ TakeRelease(a) \/ UnlockDec(a) \/ ParkEnter(a) \/ ParkReturn(a) \/ IsUnparked(a)
   \/ SetRelease(a) \/ LeaveCS(a)
 \* internal steps (no point)
-Internal(a) == NextOp(a)
+Internal(a) == NextOp(a) \/ Retry(a)
 \* expected hook argument at the current point (-1 = not compared)
 \* labels at which an actor performs internal steps (no verification point): under the baton these
 \* complete before anybody else moves
-InternalPcs == {"next"}
+InternalPcs == {"next", "retry"}
 Obs(a) == IF pc[a] = "sb.park.ret" THEN (IF res[a] = "Ok" THEN 0 ELSE 2) ELSE -1
 
 AllOver == \A a \in Actors : pc[a] \in {"done", "dead"}
